@@ -124,7 +124,7 @@ def run(ctx):
         if not v["accept"]:
             ctx.reject({"case": c, "trace": t}, v["failed"], brew_signature(c, t))
     ctx.cov["brew_runs_stopped_with_calibration_error"] = nerr
-    ctx.cov["folds_in_calibration_domain"] = sum(int(bv[t["tid"]].get("info") or 0) for t in btr)
+    ctx.cov["folds_in_calibration_domain"] = sum(max(0, int(bv[t["tid"]].get("info") or 0)) for t in btr)
     ctx.sample({"direct_case": direct[777], "trace": dtr[777]})
     ctx.sample({"brew_case": {k: v for k, v in bcases[0].items() if k != "files"}, "scores": btr[0]["scores"][:4],
                 "preds": [{"model": p["model"], "ids": p["ids"][:4], "raw": p["raw"][:4]} for p in btr[0]["preds"][:2]]})
@@ -145,7 +145,7 @@ def run(ctx):
     for i in crng.permutation(len(btr)):
         t = btr[int(i)]
         if not bv[t["tid"]]["accept"] or t["raised"] or not t["calibrated"] or not t["scores"] or len(bad) >= 60 \
-                or not bv[t["tid"]].get("info"):
+                or int(bv[t["tid"]].get("info") or 0) <= 0:
             continue
         b = copy.deepcopy(t)
         for sc in b["scores"]:
